@@ -85,7 +85,15 @@ DTYPES = ["u1", "?", "<i2", ">i2", "<i4", ">i4", "<i8", ">u8", "<f2", "<f4", ">f
           [["p", "<f4", [2]], ["q", "|u1"]],
           {"fields": [["a", "u1"], ["b", "<f8"]], "align": True},
           [["inner", [["u", "<i2"], ["v", "<U2"]]], ["w", "?"]],
-          "O", [["k", "<i4"], ["o", "O"]]]
+          "O", [["k", "<i4"], ["o", "O"]],
+          # records MIXING byte orders (only "all fields foreign" may be byte-swapped on load), nested and sub-array fields
+          [["proto", ">u2"], ["count", "<i4"]],
+          [["a", "<u2"], ["b", ">u2"], ["c", "<f8"], ["d", ">f8"]],
+          [["hdr", [["x", ">i4"], ["y", "<i4"]]], ["v", ">f4"]],
+          [["hdr", [["x", ">i4"], ["y", ">i2"]]], ["v", ">f4"]],
+          [["p", ">i2", [3]], ["q", "<i2", [2]]],
+          [["p", ">i2", [3]], ["q", ">f8"]],
+          [["t", ">M8[s]"], ["n", "<u4"], ["s", ">U2"]]]
 ZERO_ITEMSIZE = ["V0", []]
 SHAPES = [[], [0], [1], [5], [17], [3, 4], [1, 1], [2, 0, 3], [2, 3, 4], [4, 1, 2], [0, 0], [1, 6], [2, 2, 2, 2]]
 LAYOUTS = ["C", "C", "F", "T", "strided", "neg", "broadcast", "matrix", "subclass", "memmap", "memmapF", "memmap_view"]
@@ -125,7 +133,7 @@ def gen_arrays(rng, n):
              "target": rng.choice(["path", "path", "raw", "bytesio"]), "form": rng.choice(FORMS),
              "proto": rng.choice([None, 2, 3, 4, 5, None]), "filler": rng.choice([0, 1, 5, 9, 14, 15, 16, 17, 250, 4000, 66000]),
              "nested": rng.random() < 0.8, "name": rng.choice(["arr.pkl", "arr.gz", "arr", "arr.npy"]),
-             "ensure_native": rng.choice(["auto", "auto", False]),
+             "ensure_native": rng.choice(["auto", "auto", False, True]),
              "load_via": rng.choice(["path", "fileobj"])}
         if lay in ("memmap", "memmapF", "memmap_view"):
             c["mm_offset"] = rng.choice([0, 8, 16, 40])
@@ -142,6 +150,14 @@ def gen_big(rng):
         out.append({"mode": "array", "seed": rng.randrange(10 ** 9), "dtype": dt, "shape": shape,
                     "layout": rng.choice(["C", "F"]) if len(shape) > 1 else "C", "target": rng.choice(["path", "bytesio"]),
                     "form": form, "proto": None, "filler": rng.choice([0, 7]), "nested": False, "ensure_native": "auto"})
+    # 4-8 MiB of zeros x zlib / gzip at levels 4, 7, 9: the compressed file is a few KiB, a single raw block of it
+    # inflates to MiBs
+    for dt, shape in [("<f8", [786432]), ("u1", [2048, 2048]), (">i4", [1500000]), ("<f4", [1024, 1024, 2])]:
+        codec = rng.choice(["zlib", "gzip"])
+        out.append({"mode": "array", "seed": rng.randrange(10 ** 9), "dtype": dt, "shape": shape, "layout": "zeros",
+                    "target": rng.choice(["path", "raw", "bytesio"]), "form": rng.choice([[codec, 4], [codec, 7], [codec, 9], 7]),
+                    "proto": rng.choice([None, 4]), "filler": rng.choice([0, 7]), "nested": rng.random() < 0.5,
+                    "ensure_native": "auto", "load_via": rng.choice(["path", "fileobj"])})
     return out
 
 
